@@ -178,7 +178,7 @@ Definition log_config (pr : proto) (opts : list opt) (e : env) : cfg :=
   let path :=
     or_dflt (or_else (l_path s)
             (or_else (log_getenv (fun v => option_map (fun u => if is_nil (u_path u) then [47] else u_path u) (parse_url v)) (spec_ep e) [])
-                     (log_getenv (fun v => option_map (fun u => u_path u ++ sig) (parse_url v)) (gen_ep e) [])))
+                     (log_getenv (fun v => option_map (fun u => trim_right_slash (u_path u) ++ sig) (parse_url v)) (gen_ep e) [])))
             sig in
   {| c_host := host;
      c_path := match pr with PHttp => wire_path path | PGrpc => sig end;
